@@ -86,9 +86,15 @@ impl<F: Fam> Ctx<F> {
                 self.do_chain(s, kk, None, chain)?;
                 self.after_op(s, &[C01, C12], false)
             }
-            Op::RawEntryMut { s, k, how, chain } => {
+            Op::RawEntryMut { s, k, how, chain, probe_other } => {
                 let s = (*s & 1) as usize;
                 let kk = self.resolve(s, *k);
+                if *probe_other && !self.slots[s].model.contains_key(&kk) {
+                    let pk = self.fresh_key();
+                    if !self.slots[s].model.contains_key(&pk) && pk != kk {
+                        self.probe_next = Some(pk);
+                    }
+                }
                 self.do_chain(s, kk, Some(*how), chain)?;
                 self.after_op(s, &[C01, C12], false)
             }
@@ -498,6 +504,13 @@ impl<F: Fam> Ctx<F> {
     }
 
     fn do_chain(&mut self, s: usize, kk: u32, raw: Option<RawHow>, chain: &Chain) -> Result<(), Fail> {
+        let probe = self.probe_next.take();
+        // the lookup for another key is made by precomputed hash (the harness computes it), so
+        // that the only key object hashed by the call is the one that is inserted
+        let raw = match (raw, probe) {
+            (Some(RawHow::FromKey), Some(_)) => Some(RawHow::FromKeyHashedNocheck),
+            (r, _) => r,
+        };
         let present = self.slots[s].model.get(&kk).copied();
         let loc = if present.is_some() { self.in_old(s, kk) } else { None };
         self.note_loc(present.is_some(), loc);
@@ -522,9 +535,10 @@ impl<F: Fam> Ctx<F> {
             vac_kid: 0,
             replaced_in_old: false,
             vh: self.meta[s].vh,
+            probe,
         };
         let key = F::K::mk(kk);
-        let q = if raw.is_some() { Some(F::K::mk(kk)) } else { None };
+        let q = if raw.is_some() { Some(F::K::mk(probe.unwrap_or(kk))) } else { None };
         let simref = &mut sim;
         let (_, obs) = self.observe(s, true, &[C12], move |m| match raw {
             None => run_entry::<F>(m, key, chain, simref),
@@ -571,7 +585,51 @@ impl<F: Fam> Ctx<F> {
         let lim = lim.min(self.len_cap(s).saturating_sub(self.slots[s].model.len()));
         for i in 0..n.min(lim) {
             let kk = self.fresh_key();
-            self.do_insert(s, kk, i as u32, Some((C10, what)))?;
+            // "the next n new keys are inserted without reallocation" holds for every inserting
+            // route, not only `insert`
+            match (i + n) % 4 {
+                1 => self.insert_fresh_via(s, kk, i as u32, 1, (C10, what))?,
+                2 => self.insert_fresh_via(s, kk, i as u32, 2, (C10, what))?,
+                _ => {
+                    self.do_insert(s, kk, i as u32, Some((C10, what)))?;
+                }
+            }
+        }
+        Ok(())
+    }
+
+    /// inserts the absent key `kk` through `entry(k).or_insert(v)` (route 1) or
+    /// `raw_entry_mut().from_key(&k).or_insert(k, v)` (route 2); an allocation is a failure of
+    /// `no_alloc`
+    fn insert_fresh_via(&mut self, s: usize, kk: u32, v: u32, route: u8, no_alloc: (Prop, &'static str)) -> Result<(), Fail> {
+        if self.slots[s].model.contains_key(&kk) {
+            self.do_insert(s, kk, v, Some(no_alloc))?;
+            return Ok(());
+        }
+        self.note_loc(false, None);
+        let key = F::K::mk(kk);
+        let q = F::K::mk(kk);
+        let val = F::V::mk(v);
+        let (kid, vid) = (key.id(), val.id());
+        let (got, obs) = self.observe(s, true, &[C12], move |m| {
+            if route == 1 {
+                let r = m.entry(key).or_insert(val);
+                (r.v(), r.id())
+            } else {
+                let (k, r) = m.raw_entry_mut().from_key(&q).or_insert(key, val);
+                let _ = k.k();
+                (r.v(), r.id())
+            }
+        })?;
+        if got != (v, vid) {
+            fail!(self, [C01, C12], "entry-return", "inserting the new key {} through {} returned a reference to value {:?}, stored {:?}", kk, if route == 1 { "entry().or_insert" } else { "raw_entry_mut().from_key().or_insert" }, got, (v, vid));
+        }
+        self.slots[s].model.insert(kk, ME { kid, v, vid });
+        let mut f = Facts::point(kk);
+        f.added = true;
+        self.judge(s, &obs, &f)?;
+        if obs.alloc.allocs != 0 {
+            return Err(self.mkfail(vec![no_alloc.0], no_alloc.1, format!("an entry insertion allocated {} time(s) although room had been promised (len {} capacity {})", obs.alloc.allocs, obs.pre.len, obs.pre.cap), String::new()));
         }
         Ok(())
     }
